@@ -1,5 +1,74 @@
-Require Import V.Lib.Base V.Lib.Calls V.C10.Model.
+(* C10 - the ground-text reader delivers exactly the statements written in its input syntax.
+   Model: C10/Model.v (AspifTextInput, as repaired, over the abstract stream of C09/Spec.v).
+   Input syntax: C10/Grammar.v - G_program inc steps txt relates a program (incremental flag, the directive calls of
+   each step) to EVERY text that writes it down: every atom occurrence in any of its spellings (a..z for 1..26, x<n>,
+   x_<n>), arbitrary white space (blank, tab, LF, CR) after every token (non-empty after "not"), comment lines and stray
+   dots between statements, comment lines before the first statement, "#incremental." / "#step." for steps.
+   Quantifying over all txt with G_program inc steps txt is quantifying over all spellings sigma and layouts l. *)
+Require Import V.Lib.Base V.Lib.Calls V.Lib.Contract V.C09.Spec V.C10.Model V.C10.Grammar V.C10.ProofsProg V.C10.ProofsContract.
 Local Open Scope Z_scope.
+
+(* Round trip: every text of a valid program is accepted (status 1, no error line) and the reader delivers exactly
+   initProgram(inc), then per step beginStep, the directives in order with the same atoms, signs, weights (weight 0
+   omitted: norm_call), bounds, priorities, values, modifiers, conditions, endStep.
+   Output terms are identifiers or quoted strings (terms with argument lists: correspondence check only, hence _partial). *)
+Theorem c10_roundtrip_partial : forall inc steps txt,
+  Forall (Forall stmt_ok) steps -> G_program inc steps txt ->
+  observe (read_text txt) = 1 :: 0 :: enc_calls (program_calls inc steps).
+Proof. exact roundtrip. Qed.
+Print Assumptions c10_roundtrip_partial.
+
+(* Layout / spelling independence: two texts of the same program are read identically. *)
+Theorem c10_layout_partial : forall inc steps txt1 txt2,
+  Forall (Forall stmt_ok) steps -> G_program inc steps txt1 -> G_program inc steps txt2 ->
+  observe (read_text txt1) = observe (read_text txt2).
+Proof. intros inc steps t1 t2 H G1 G2. rewrite (roundtrip inc steps t1 H G1), (roundtrip inc steps t2 H G2). reflexivity. Qed.
+Print Assumptions c10_layout_partial.
+
+(* Consumer contract (support for C04), for EVERY byte list t, accepted or not, no validity hypothesis: the calls the
+   reader delivers satisfy V.Lib.Contract.contract_ok (initProgram first and once, directives only inside
+   beginStep/endStep, atoms 1..2^31-1, non-zero literals, rule-body weights >= 0, head type 0/1, external value 0..3,
+   heuristic type 0..5 and priority 0..2^31-1, int-range bounds / priorities / edge nodes), and an accepted input
+   leaves no step open.  (A loop of the model that ran out of fuel would end as a parse error and is covered by the
+   statement; that the fuel S(length rest) is never exhausted is NOT proved here.) *)
+Theorem c10_contract : forall t,
+  contract_ok (delivered (read_text t)) = true /\
+  (accepted (read_text t) = true -> steps_closed (delivered (read_text t)) = true).
+Proof. exact contract_all. Qed.
+Print Assumptions c10_contract.
+
 Example c10_smoke : run_case [2; 97; 46] = [1; 0; 1; 0; 2; 4; 0; 1; 1; 0; 3].
 Proof. vm_compute. reflexivity. Qed.
-Print Assumptions c10_smoke.
+
+(* ---- non-vacuity: a concrete text with alternative spellings, tabs / line breaks, a comment and a stray dot is in the
+        grammar of a concrete two-directive program, and the hypotheses of the theorems hold for it ---- *)
+Definition ex_steps : list (list call) := [[CRule 0 [1] [-2]; CProject []]].
+(*  "a:- not\tx_2 .\n% c\n. #project.\n"  *)
+Definition ex_text : list Z :=
+  [97; 58; 45; 32; 110; 111; 116; 9; 120; 95; 50; 32; 46; 10; 37; 32; 99; 10; 46; 32; 35; 112; 114; 111; 106; 101; 99; 116; 46; 10].
+Example ex_valid : Forall (Forall stmt_ok) ex_steps.
+Proof. repeat constructor; unfold atom_ok, lit_ok, atom_ok, INT_MAX; simpl; try lia; auto. Qed.
+Example ex_grammar : G_program false ex_steps ex_text.
+Proof.
+  exists [], [], [], ex_text. repeat split; try constructor; try discriminate. cbn [G_steps].
+  change ex_text with ([] ++ [97; 58; 45; 32; 110; 111; 116; 9; 120; 95; 50; 32; 46; 10] ++
+                       ([37] ++ [32; 99] ++ [10] ++ [] ++ ([46; 32] ++ [])) ++ [35; 112; 114; 111; 106; 101; 99; 116; 46; 10] ++ []).
+  apply S_cons; [constructor | | ].
+  - cbn [G_stmt]. exists [97], [58; 45; 32; 110; 111; 116; 9; 120; 95; 50; 32], [46; 10]. repeat split.
+    + exists [97], []. repeat split. left. split; [lia | reflexivity].
+    + exists [10]. split; reflexivity.
+    + right. exists [58; 45; 32], [110; 111; 116; 9; 120; 95; 50; 32]. repeat split.
+      * exists [32]. split; reflexivity.
+      * cbn. exists [9], [120; 95; 50; 32]. repeat split; try discriminate.
+        exists [120; 95; 50], [32]. repeat split. right. right. reflexivity.
+  - apply S_cons.
+    + apply F_comment; [repeat constructor; discriminate | now left | reflexivity |].
+      apply (F_dot [46; 32] []); [exists [32]; split; reflexivity | constructor].
+    + cbn [G_stmt]. exists [35; 112; 114; 111; 106; 101; 99; 116], [], [46; 10]. repeat split.
+      * exists []. split; reflexivity.
+      * exists [10]. split; reflexivity.
+      * left. split; reflexivity.
+    + apply S_nil. constructor.
+Qed.
+Example ex_read : observe (read_text ex_text) = 1 :: 0 :: enc_calls (program_calls false ex_steps).
+Proof. vm_compute. reflexivity. Qed.
